@@ -119,4 +119,25 @@ CHECKS = {
              "is decoded by an independent decoder and aligned with a generated reference timeline.",
         note=_TB + "; random.uniform is an explorer choice over {min, max}",
     ),
+    "C12": dict(
+        engine="E2 deviation-bounded", level="model_checking", design_ref="5/C12",
+        technique="exhaustive product of FindService wildcard combinations x channel placed at every discovered timer instant of the offer lifecycle (also after stop / in the iteration of stop / after restart); reference matcher + time window",
+        text="All 54 combinations of service/instance/major/minor (concrete or wildcard) x {unicast, multicast} are "
+             "delivered at every timer instant discovered from the run (-eps, pre, post, +eps) against four instance sets "
+             "(one to three instances, one non-cyclic); lifecycle runs place stop / stop+find in one iteration / "
+             "connection loss / restart before the find. Answers decoded from the wire must be exactly those of the "
+             "reference matcher, to the requester only, at the exact instant (unicast: receive time + collection "
+             "timeout; multicast: + the chosen request-response delay).",
+        note=_TB + "; at most one FindService per run",
+    ),
+    "C13": dict(
+        engine="E2 deviation-bounded", level="model_checking", design_ref="5/C13",
+        technique="deviation-bounded stateless exploration: <=2 offers / stop-offers at every discovered round or expiry instant over 450 configurations (watched subsets x timing); per-round expected entry list",
+        text="For every non-empty subset of <=3 of 5 watched filters x initial window/choice x repetitions {0,1,3} x base "
+             "delay {1/8 s, 1 s}: the default run and every run with one offer / stop-offer (three services, TTL 1 or 3) at "
+             "every discovered instant (-eps, pre, post, +eps); two events for a sub-family (offers that expire again "
+             "between rounds). Each FindService message on the wire must be exactly the list of not-yet-found filters at "
+             "that round instant, at the exact round time, to the multicast group; no round after all were found.",
+        note=_TB,
+    ),
 }
